@@ -60,6 +60,22 @@ Theorem C15_create_one_row_per_level : forall auto s k a unk s' ob, reachable au
   born s' = born s ++ [(oid ob, k)].
 Proof. exact (@create_rows). Qed.
 
+(* Explicit ids.  On a subclass constructor the id given is dropped (`id =
+   self._parent.id`): the operation is the plain create, all levels share the
+   root's fresh id.  On the root class the row gets the id given (any integer
+   not in use; the AUTOINCREMENT counter only grows), or the call raises and
+   changes nothing. *)
+Theorem C15_create_id_subclass_ignored : forall auto s k a unk i, parent k <> None ->
+  step auto s (CreateId k a unk i) = step auto s (Create k a unk).
+Proof. exact (@create_id_subclass). Qed.
+Theorem C15_create_id_root : forall auto s a unk i s' r, reachable auto s ->
+  step auto s (CreateId KA a unk i) = (s', r) ->
+  (exists x, r = RErr x /\ s' = s) \/
+  (r = RObj (mkobj i KA [argval a KA]) /\ has i (tab s KA) = false /\
+   tab s' KA = tab s KA ++ [mkrow i (argval a KA) None] /\ (forall l, l <> KA -> tab s' l = tab s l) /\
+   born s' = born s ++ [(i, KA)] /\ seq s' = Z.max (seq s) i /\ refs s' = refs s).
+Proof. exact (@create_id_root). Qed.
+
 (* Fetching an id created as k through any class of k's chain returns the
    instance of class k, showing the values of the ancestor rows; through any
    other class it is not found. *)
@@ -245,6 +261,12 @@ Example C15_example_set_own_invalid :
   step true ex_state (SetMany KA 9 [(KA, Int 7); (KB, Int 7); (KC, Bad)]) = (ex_state, RErr EInvalid) /\
   set_guard KC [(KA, Int 7); (KB, Int 7); (KC, Bad)] = true.
 Proof. vm_compute. split; reflexivity. Qed.
+Example C15_example_explicit_ids :
+  let s := run true init [Create KA (mkargs (Int 1) Omit Omit Omit) false; CreateId KA (mkargs (Int 2) Omit Omit Omit) false 40;
+                          CreateId KC (mkargs (Int 3) (Int 3) (Int 3) Omit) false 70; CreateId KA (mkargs (Int 4) Omit Omit Omit) false (-3);
+                          CreateId KA (mkargs (Int 5) Omit Omit Omit) false 40] in
+  born s = [(1, KA); (40, KA); (41, KC); (-3, KA)] /\ seq s = 41 /\ ids (tC s) = [41].
+Proof. vm_compute. repeat split. Qed.
 Example C15_example_failed_create_hyp :
   zmem (seq ex_state + 1) (refs ex_state) = false /\
   snd (step true ex_state (Create KC (mkargs (Int 7) (Int 7) (Int 6) Omit) false)) = RErr EDup.
@@ -262,6 +284,8 @@ Print Assumptions C15_nesting_inv_refuted_restrict.
 Print Assumptions C15_nesting_inv_refuted_txn.
 Print Assumptions C15_reachable_step.
 Print Assumptions C15_create_one_row_per_level.
+Print Assumptions C15_create_id_subclass_ignored.
+Print Assumptions C15_create_id_root.
 Print Assumptions C15_most_derived_partial.
 Print Assumptions C15_most_derived_refuted.
 Print Assumptions C15_get_sound.
